@@ -272,6 +272,7 @@ package jsonschema
 //@   atline[C07] "validation-01#section-6.4" contains uses stacklen,anns: schema.Contains != nil ==> isold(schema) && new(anns) && newOrNil(anns.evaluatedIndexes) && (forall j int {rvindex(instance, j)} :: 0 <= j && j < rvlen(instance) && vok(st, len(stk0) + 1, rvindex(instance, j), schema.Contains) ==> anns.evaluatedIndexes != nil && has(anns.evaluatedIndexes, j) && anns.evaluatedIndexes[j])
 //@   atline[C01] "// objects" cp5 uses samejv,shaped,p_items: okItems(schema, instance)
 //@   atline[C01,C07] "if len(schema.PatternProperties) > 0 {" propsok uses stacklen,propsinv: isold(schema) && isold(schema.Properties) && new(evalProps) && (forall k string {has(schema.Properties, k)} :: has(schema.Properties, k) && rvhas(instance, k) ==> vok(st, len(stk0) + 1, rvget(instance, k), schema.Properties[k]) && has(evalProps, k) && evalProps[k])
+//@   atline[C01,C07] "anns.noteProperties(evalProps)" addok uses stacklen,fal,addp: schema.AdditionalProperties != nil ==> new(evalProps) && (forall k string {rvhas(instance, k)} :: rvhas(instance, k) ==> has(evalProps, k) && evalProps[k])
 //@   atline[C01] "if st.rs.draft == draft7 {#3" reqok uses shaped: isold(schema) && isold(schema.Required) && okReq(schema, instance)
 //@   atline[C01] "if callerAnns != nil {" cp6 uses samejv,shaped,p_props,p_req: okProps(schema, instance) && isold(schema) && isold(schema.Required) && okReq(schema, instance)
 //@   atreturn[C01,C12] accepted uses samejv: result == nil && applies ==> jv(instance) == jv(inst0) && okType(schema, instance) && okConst(schema, instance) && okNum(schema, instance) && okStr(schema, instance) && okItems(schema, instance) && okProps(schema, instance) && okReq(schema, instance)
@@ -339,6 +340,10 @@ package jsonschema
 //@   loop "range props"
 //@     invariant[C01] reqinv: forall j int {props[j]} :: 0 <= j && j <= $idx ==> rvhas(instance, props[j]) || len(missing) > 0
 //@     exit[C01] reqdone uses reqinv: forall j int {props[j]} :: 0 <= j && j < len(props) ==> rvhas(instance, props[j]) || len(missing) > 0
+//@   loop "range properties(instance)#2"
+//@     invariant[C01,C07] fal: new(evalProps) && (forall k string {select(visited, k)} :: select(visited, k) ==> (has(evalProps, k) && evalProps[k]) || len(disallowed) > 0)
+//@   loop "range properties(instance)#3"
+//@     invariant[C01,C07] addp uses stacklen: new(evalProps) && isold(schema) && (forall k string {select(visited, k)} :: select(visited, k) ==> has(evalProps, k) && evalProps[k] && (pre(has(evalProps, k) && evalProps[k]) || vok(st, len(stk0) + 1, rvget(instance, k), schema.AdditionalProperties))) && (forall k string {has(evalProps, k)} :: !select(visited, k) ==> (has(evalProps, k) && evalProps[k]) == pre(has(evalProps, k) && evalProps[k]))
 //@   loop "range schema.Properties"
 //@     invariant[C01,C07] propsinv uses stacklen: isold(schema) && isold(schema.Properties) && new(evalProps) && (forall k string {select(visited, k)} :: select(visited, k) && rvhas(instance, k) ==> vok(st, len(stk0) + 1, rvget(instance, k), schema.Properties[k]) && has(evalProps, k) && evalProps[k])
 //@   loop "range instance.Len()"
